@@ -18,7 +18,7 @@ RULE = (
     "events: GFF3 family 29 = 17 updates (9 bundles x merge strategies; one directive-only, one in another dialect), 6 deletes (id, "
     "Feature, list, generators of ids / Features), 4 add_relation (plain, with a parent and a child callback each marking its feature, "
     "with a child callback rewriting Parent, unknown ids), reopen, set_pragmas; GTF family 14 = 9 updates (5 bundles), 3 deletes, "
-    "reopen, set_pragmas; quick omits 3 GFF3 updates, the plain add_relation and 2 GTF updates (25 / 12). Reads are interleaved before "
+    "reopen, set_pragmas; quick omits 3 GFF3 updates and 2 GTF updates (26 / 12). Reads are interleaved before "
     "every event. Every reached state (deduplicated on features, relations, autoincrements, duplicates and the live id counters) is "
     "checked: features (row order) and relations against the reference model through a second connection; live connection equals file; "
     "dialect (live and reopened) and directives unchanged; filtered children, region per seqid, counts and look-ups of every id ever "
@@ -87,8 +87,8 @@ GFF_EVENTS = ["U:%s:%s" % u for u in UPDATES] + ["D:str:e1", "D:feat:m1", "D:lis
 EVENTS = list(INITS) + GFF_EVENTS + GTF_EVENTS + ["R", "P"]          # R = reopen, P = set_pragmas (changes nothing in the content)
 
 
-# quick leaves out events that have a close relative in the alphabet (A:plain is subsumed by A:mark)
-QUICK_SKIP = {"U:B3:warning", "U:B1:create_unique", "U:G3:warning", "U:G3:create_unique", "A:plain", "U:B6:replace"}
+# quick leaves out update events that have a close relative in the alphabet
+QUICK_SKIP = {"U:B3:warning", "U:B1:create_unique", "U:G3:warning", "U:G3:create_unique", "U:B6:replace"}
 
 
 def depth_of(tier):
